@@ -19,29 +19,37 @@ Fixpoint cm_lookup (cm : connmap) (k : ckey) : option pname :=
   | (k', v) :: r => if ckey_eqb k' k then Some v else cm_lookup r k
   end.
 
-(* Pins.map_names, inner `while ":" in name` loop, on fuel; MLoop = the loop does not terminate *)
-Inductive mres := MOk (p : Z) | MMissing | MLoop.
-Fixpoint resolve_name (fuel : nat) (cm : connmap) (n : pname) {struct fuel} : mres :=
+Fixpoint ckey_mem (a : ckey) (l : list ckey) : bool :=
+  match l with [] => false | b :: r => ckey_eqb a b || ckey_mem a r end.
+
+(* Pins.map_names, inner `while ":" in name` loop with its `seen` set, on fuel:
+     if name not in mapping: NameError (MMissing); if name in seen: NameError (MCycle); seen.add(name)
+   MLoop = fuel exhausted; unreachable with fuel cm_fuel (Proofs/ResP.v, resolve_terminates) *)
+Inductive mres := MOk (p : Z) | MMissing | MCycle | MLoop.
+Fixpoint resolve_seen (fuel : nat) (cm : connmap) (seen : list ckey) (n : pname) {struct fuel} : mres :=
   match n with
   | Plat p => MOk p
   | CPin c k =>
     match fuel with
     | O => MLoop
     | S f => match cm_lookup cm (c, k) with
-             | None => MMissing            (* NameError *)
-             | Some n' => resolve_name f cm n'
+             | None => MMissing
+             | Some n' => if ckey_mem (c, k) seen then MCycle
+                          else resolve_seen f cm ((c, k) :: seen) n'
              end
     end
   end.
+Definition resolve_name (fuel : nat) (cm : connmap) (n : pname) : mres := resolve_seen fuel cm [] n.
 Definition cm_fuel (cm : connmap) : nat := S (length cm).
 
-Inductive lres := LOk (l : list Z) | LMissing | LLoop.
+Inductive lres := LOk (l : list Z) | LMissing | LCycle | LLoop.
 Fixpoint map_names (fuel : nat) (cm : connmap) (ns : list pname) : lres :=
   match ns with
   | [] => LOk []
   | n :: r => match resolve_name fuel cm n with
               | MOk p => match map_names fuel cm r with LOk l => LOk (p :: l) | e => e end
               | MMissing => LMissing
+              | MCycle => LCycle
               | MLoop => LLoop
               end
   end.
@@ -203,17 +211,17 @@ Definition resolve_leaf (fuel : nat) (cm : connmap) (nm : Z) (l : leafd) (d : dv
   | PPins ns =>
     match map_names fuel cm ns with
     | LOk pp => leaf_finish nm l d x pth attrs st pp [] false
-    | LMissing => (st, inl EName)
+    | LMissing | LCycle => (st, inl EName)
     | LLoop => (st, inl EHang)
     end
   | PDiff ps ns =>
     match map_names fuel cm ps with
     | LOk pp => match map_names fuel cm ns with
                 | LOk nn => leaf_finish nm l d x pth attrs st pp nn true
-                | LMissing => (st, inl EName)
+                | LMissing | LCycle => (st, inl EName)
                 | LLoop => (st, inl EHang)
                 end
-    | LMissing => (st, inl EName)
+    | LMissing | LCycle => (st, inl EName)
     | LLoop => (st, inl EHang)
     end
   end.
